@@ -8,16 +8,13 @@
   mirror       for EVERY accepted input of every stream (exhaustive sequences, ghost stress, documents,
                mutations, random tokens / bytes): the real tape against the real Lexer's token sequence
                (kind bt.mir): the stream is the tape plus deleted `{ }` pairs, nothing fabricated, altered or
-               reordered -> oracles tape-not-mirror / tape-not-subsequence; the only_empties-with-odd-remainder
-               class (finding L) is recognised through the model (bt.odd) and reported under its own key
+               reordered -> oracles tape-not-mirror / tape-not-subsequence (finding L, the only_empties test
+               ignoring an odd trailing token, was found by this oracle and is fixed: any failure is a violation)
   chain        parse h1, h2, ..., hn into ONE tape, alternating the optimised and the reference entry
                point: the tape after the last parse equals a fresh-tape parse -> oracle reuse-differs
 """
 import vlib
 from vlib import hexs
-
-KEY_L = "L-only-empties-odd"
-
 
 def make_mdoc(Doc):
     class MDoc(Doc):
@@ -110,7 +107,8 @@ def gen_mixed_doc(Doc, rng):
 
 
 def witness_L(enc, EQUAL, OPEN, CLOSE):
-    """`a = { {} x y = z }`: the token x is lost (only_empties with an odd remainder)"""
+    """`a = { {} x y = z }`: the token x used to be lost (only_empties with an odd remainder, finding L, fixed);
+    replayed every run"""
     return enc("id", 0) + EQUAL + OPEN + OPEN + CLOSE + enc("id", 1) + enc("id", 2) + EQUAL + enc("id", 3) + CLOSE
 
 
@@ -143,7 +141,6 @@ def run_mirror(ctx, judge, accepted, extra=()):
             cases.append("bt.mir\t" + h)
     impl, model = ctx.correspond("mirror", cases, nontrivial=lambda c, o: "y" in o or "n" in o)
     base = len(impl) - len(cases)
-    bad = []
     for k, c in enumerate(cases):
         o = impl[base + k]
         p = o.split(" ")
@@ -158,15 +155,8 @@ def run_mirror(ctx, judge, accepted, extra=()):
             elif f[1] != "y":
                 judge.add("tape-not-subsequence", "%s tape holds a token that is not in the lexer's token stream at that place (fabricated, altered or reordered)" % which, c, o, "?y")
             elif f[0] != "y":
-                bad.append((k, which, c, o))
+                judge.add("tape-not-mirror", "%s tape differs from the lexer's token stream by more than deleted `{ }` pairs (a key or value of the stream is missing from the tape)" % which, c, o, "yy")
         ctx.count("mirror_" + p[1][4:])
-    if bad:
-        odd = vlib.run_model(["bt.odd\t" + c.split("\t")[1] for (_, _, c, _) in bad])
-        for (k, which, c, o), f in zip(bad, odd):
-            if f == "1":
-                judge.add(KEY_L, "a scalar of the token stream is missing from the tape: `{ {} .. {} x y = z }` -- only_empties uses chunks_exact(2), which ignores the odd token x, and set_len drops it", c, o, "yy")
-            else:
-                judge.add("tape-not-mirror", "%s tape differs from the lexer's token stream by more than deleted `{ }` pairs" % which, c, o, "yy")
     ctx.count("mirror_cases", len(cases))
 
 
